@@ -21,6 +21,7 @@ type c9Handler struct {
 	want   []string // expected middleware tags, outermost first
 	traces map[*message.Message][]string
 	added  bool
+	outTopic string
 	// reborn: registered under the name of a handler that was stopped before; tolerated: that predecessor's own middleware tags
 	reborn    bool
 	tolerated []string
@@ -55,8 +56,24 @@ func c09Body(r *Run) {
 	}
 	rig := newRouterRig(r, 30*time.Second)
 	var hs []*c9Handler
+	// in the random programs one handler (never the first) may have the empty name, and one may publish to the empty topic
+	// (a publisher that routes by metadata needs none)
+	unnamed, noTopic := -1, -1
+	if !exhaustive && nH+nLate > 1 && t.Chance(1, 4) {
+		unnamed = 1 + t.Int(nH+nLate-1)
+	}
+	if !exhaustive && t.Chance(1, 4) {
+		noTopic = t.Int(nH + nLate)
+	}
 	for i := 0; i < nH+nLate; i++ {
 		h := &c9Handler{name: fmt.Sprintf("H%d", i), late: i >= nH, traces: map[*message.Message][]string{}}
+		if i == unnamed {
+			h.name = ""
+		}
+		h.outTopic = "out-" + h.name
+		if i == noTopic {
+			h.outTopic = ""
+		}
 		h.sub = NewScriptedSubscriber(r, h.name+"-sub")
 		h.sub.Script["in-"+h.name] = []ScriptMsg{{UUID: h.name + "-m0", Payload: "x"}, {UUID: h.name + "-m1", Payload: "y"}}
 		h.pub = NewScriptedPublisher(r, h.name+"-pub")
@@ -91,7 +108,7 @@ func c09Body(r *Run) {
 				m.Metadata.Set("subtrace", strings.TrimPrefix(m.Metadata.Get("subtrace")+",app", ","))
 			})(h.sub)
 		}
-		h.h = rig.Router.AddHandler(h.name, "in-"+h.name, hsub, "out-"+h.name, h.pub, func(m *message.Message) ([]*message.Message, error) {
+		h.h = rig.Router.AddHandler(h.name, "in-"+h.name, hsub, h.outTopic, h.pub, func(m *message.Message) ([]*message.Message, error) {
 			h.traces[m] = append(h.traces[m], "handler")
 			o := message.NewMessage(m.UUID+">out", []byte("o"))
 			return []*message.Message{o}, nil
@@ -370,7 +387,7 @@ func c09Body(r *Run) {
 		r.Fault("handler-stopped-and-registered-again-under-its-name")
 		old.h.Stop()
 		<-old.h.Stopped()
-		h2 := &c9Handler{name: old.name, traces: map[*message.Message][]string{}, reborn: true}
+		h2 := &c9Handler{name: old.name, traces: map[*message.Message][]string{}, reborn: true, outTopic: "out-" + old.name}
 		h2.sub = NewScriptedSubscriber(r, old.name+"-sub2")
 		h2.sub.Script["in-"+old.name] = []ScriptMsg{{UUID: old.name + "-again-m0", Payload: "x"}, {UUID: old.name + "-again-m1", Payload: "y"}}
 		h2.pub = NewScriptedPublisher(r, old.name+"-pub2")
